@@ -8,23 +8,28 @@
 EXTENDS Fetch, TLC
 CONSTANTS MaxBudget, MaxUris, FinalVerify, EmitRuns
 
-VARIABLES kind, budget, nuris, init, file, n, phase, cmd, result, atts
-vars == <<kind, budget, nuris, init, file, n, phase, cmd, result, atts>>
+VARIABLES kind, zero, budget, nuris, init, file, n, phase, cmd, result, atts
+vars == <<kind, zero, budget, nuris, init, file, n, phase, cmd, result, atts>>
 
 \* what a fetch command can do to the file; without checksums all non-empty files look alike
-Writes(K) == IF K = "none" THEN {"nothing", "empty", "corrupt", "good"}
-             ELSE {"nothing", "empty", "partial", "oversize", "corrupt", "good"}
-Inits(K)  == IF K = "none" THEN {"missing", "empty", "good"} ELSE Classes
+\* zero: the distfile itself is empty (expected size 0, carried by a size checksum): the only
+\* files there can be are the good (zero-length) one and longer ones
+Writes(K, z) == IF z THEN {"nothing", "good", "oversize"}
+                ELSE IF K = "none" THEN {"nothing", "empty", "corrupt", "good"}
+                ELSE {"nothing", "empty", "partial", "oversize", "corrupt", "good"}
+Inits(K, z)  == IF z THEN {"missing", "good", "oversize"}
+                ELSE IF K = "none" THEN {"missing", "empty", "good"} ELSE Classes
 
 Init == /\ kind \in Kinds /\ budget \in 1..MaxBudget /\ nuris \in 1..MaxUris
-        /\ file \in Inits(kind) /\ init = file
+        /\ zero \in BOOLEAN /\ (zero => HasSize(kind))
+        /\ file \in Inits(kind, zero) /\ init = file
         /\ n = 0 /\ phase = "verify" /\ cmd = "-" /\ result = "-" /\ atts = <<>>
 
 Done(res) == phase' = "done" /\ result' = res /\ UNCHANGED <<file, n, cmd, atts>>
 
 VerifyStep ==
     /\ phase = "verify"
-    /\ UNCHANGED <<kind, budget, nuris, init>>
+    /\ UNCHANGED <<kind, zero, budget, nuris, init>>
     /\ IF Verified(kind, file) THEN Done("path")
        ELSE IF WrongChecksum(kind, file) THEN Done("chksum")
        ELSE IF n = budget \/ n = nuris THEN Done("failed")
@@ -36,8 +41,8 @@ VerifyStep ==
 
 SpawnStep ==
     /\ phase = "spawn"
-    /\ UNCHANGED <<kind, budget, nuris, init, cmd, result>>
-    /\ \E w \in Writes(kind), e \in {0, 1} :
+    /\ UNCHANGED <<kind, zero, budget, nuris, init, cmd, result>>
+    /\ \E w \in Writes(kind, zero), e \in {0, 1} :
          LET post == IF w = "nothing" THEN file ELSE w IN
          /\ atts' = Append(atts, [pre |-> file, cmd |-> cmd, post |-> post, exit |-> e, kept |-> TRUE, w |-> w])
          /\ file' = IF kind = "none" /\ e # 0 THEN "missing" ELSE post
@@ -46,7 +51,7 @@ SpawnStep ==
          /\ IF ~FinalVerify /\ n' = budget THEN phase' = "done" ELSE phase' = "verify"
 
 \* without the final verification the loop ends right after the last spawn
-LastUnverified == phase = "done" /\ result = "-" /\ result' = "failed" /\ UNCHANGED <<kind, budget, nuris, init, file, n, phase, cmd, atts>>
+LastUnverified == phase = "done" /\ result = "-" /\ result' = "failed" /\ UNCHANGED <<kind, zero, budget, nuris, init, file, n, phase, cmd, atts>>
 
 Next == VerifyStep \/ SpawnStep \/ LastUnverified
 Spec == Init /\ [][Next]_vars
@@ -72,5 +77,5 @@ Bounded == n <= budget /\ n <= nuris
 \* spec -> code: every finished behaviour, as the inputs the driver needs to replay it
 Outcomes == [k \in DOMAIN atts |-> [w |-> atts[k].w, exit |-> atts[k].exit]]
 Emit == (EmitRuns /\ Finished) =>
-          PrintT(<<"BEH", [kind |-> kind, budget |-> budget, nuris |-> nuris, init |-> init, outcomes |-> Outcomes]>>)
+          PrintT(<<"BEH", [kind |-> kind, zero |-> zero, budget |-> budget, nuris |-> nuris, init |-> init, outcomes |-> Outcomes]>>)
 =========================================================================
